@@ -124,6 +124,12 @@ def call(op, args, pool, rng):
         vs = sorted(v for v in a[0].variables() if isinstance(v, str))
         a[0].top = vs[-1] if vs else None
         return None
+    if op == 'add_marker':
+        g = a[0]
+        if g.triples:
+            t = g.triples[len(g.triples) // 2]
+            g.epidata.setdefault(t, []).append(surface.Alignment((9,), prefix='e.'))
+        return None
     if op == 'rearrange':
         layout.rearrange(a[0], key=m.canonical_order, attributes_first=True)
         return None
@@ -133,7 +139,7 @@ def call(op, args, pool, rng):
     raise ValueError(op)
 
 
-InPlaceOps = {'union_inplace', 'difference_inplace', 'set_top', 'rearrange', 'reset_variables'}
+InPlaceOps = {'union_inplace', 'difference_inplace', 'set_top', 'add_marker', 'rearrange', 'reset_variables'}
 POOLED = {'interpret', 'configure', 'reconfigure', 'decode_encode', 'copy_graph', 'relayout', 'canonicalize_roles', 'reify_edges', 'dereify_edges',
           'reify_attributes', 'indicate_branches', 'union', 'difference'}
 
